@@ -36,6 +36,8 @@ type Contract struct {
 	Requires  []*Clause
 	Ensures   []*Clause
 	Assumes   []*Clause
+	TrustedProps []string
+	modRaw       []scopedMod
 	Applies   []*Clause // "apply x.ghostLemma(args)": lemma methods (verified ghost code) instantiated at function entry
 	Modifies  []string
 	HasMod    bool
@@ -440,12 +442,18 @@ func (e *Engine) parseContractFile(p *packages.Package, f *ast.File, fname strin
 				}
 			}
 		case "modifies":
+			// "modifies{C17} a, b": a frame used only in the checks of the listed properties
 			if cur != nil {
-				cur.HasMod = true
+				sm := scopedMod{Props: curPropsTag}
 				for _, m := range strings.Split(rest, ",") {
 					if m = strings.TrimSpace(m); m != "" && m != "nothing" {
-						cur.Modifies = append(cur.Modifies, m)
+						sm.Items = append(sm.Items, m)
 					}
+				}
+				cur.modRaw = append(cur.modRaw, sm)
+				if len(curPropsTag) == 0 {
+					cur.HasMod = true
+					cur.Modifies = append(cur.Modifies, sm.Items...)
 				}
 			}
 		case "panics":
@@ -453,8 +461,11 @@ func (e *Engine) parseContractFile(p *packages.Package, f *ast.File, fname strin
 				cur.PanicsWhen = e.parseClause(strings.TrimPrefix(rest, "when "), where)
 			}
 		case "trusted":
+			// "trusted{C07,C18}": the body is not verified in the checks of the listed properties
+			// only (there the contract is an assumption); in other checks it is verified
 			if cur != nil {
 				cur.Trusted = true
+				cur.TrustedProps = curPropsTag
 			}
 		case "pure":
 			if cur != nil {
@@ -580,3 +591,25 @@ func (e *Engine) parseContractFile(p *packages.Package, f *ast.File, fname strin
 }
 
 func (c *Contract) String() string { return fmt.Sprintf("contract(%s)", c.Key) }
+
+type scopedMod struct {
+	Items []string
+	Props []string
+}
+
+// resolveScopes fixes the frames that are scoped to properties once the property being checked is known.
+func (e *Engine) resolveScopes() {
+	for _, fi := range e.funcs {
+		con := fi.Contract
+		if con == nil || len(con.modRaw) == 0 {
+			continue
+		}
+		con.HasMod, con.Modifies = false, nil
+		for _, sm := range con.modRaw {
+			if len(sm.Props) == 0 || e.curProp == "" || has(sm.Props, e.curProp) {
+				con.HasMod = true
+				con.Modifies = append(con.Modifies, sm.Items...)
+			}
+		}
+	}
+}
